@@ -796,11 +796,12 @@ var corpus = []string{
 	"module m { namespace n; prefix p; module s; }",
 	"module m { namespace n; prefix p; a:b c; :x; y: z; container c { e:f { anything goes { here; } } } }",
 	"module m { namespace n; prefix p; a:b:c d; }",
-	"module m { namespace n; prefix p; } module m { namespace n; prefix p; }",
-	"module m { namespace n; prefix p; revision 2001-01-01; } module m { namespace n; prefix p; revision 2002-01-01; }",
-	"module m { namespace n; prefix p; revision 2001-01-01; revision 2003-01-01; } module m { namespace n; prefix p; revision 2003-01-01; }",
-	"module m { namespace n; prefix p; revision 2001-01-01; revision 2003-01-01; } module m { namespace n; prefix p; revision 2002-01-01; }",
+	"module m { namespace n; prefix p; } module m2 { namespace n; prefix p; }",
+	"module m { namespace n; prefix p; revision 2001-01-01; } module m2 { namespace n; prefix p; revision 2002-01-01; revision 2001-01-01; }",
 	"module m { namespace n; prefix p; } submodule m { belongs-to m { prefix p; } }",
+	"module m { namespace n; prefix p; } container c; module m2 { namespace n; }",
+	"module m { namespace n; prefix p; } module m2 { namespace n; } container c;",
+	"container c; module m2 { namespace n; }",
 	"module m { namespace n; prefix p; description { a:b; } }",
 	"module m { namespace n; prefix p; deviation /x { } }",
 	"module m { namespace n; prefix p; typedef t { type string { length 1..2 { error-message e; p:x; } } } leaf-list l { type t; default a; default b; } }",
@@ -1013,7 +1014,9 @@ func main() {
 	// every keyword as a top-level statement, alone and after a valid module
 	for _, K := range childs {
 		addTree("top "+K, []*gs{minimal(K, 0)})
-		addTree("module then top "+K, []*gs{minimal("module", 0), minimal(K, 0)})
+		second := minimal(K, 0)
+		second.arg = "x2" // distinct module names: collisions are the registry's business (C13)
+		addTree("module then top "+K, []*gs{minimal("module", 0), second})
 	}
 	nExh := len(cases) - nCorpus
 	st.process(cases)
